@@ -39,7 +39,7 @@ def main():
         'entry': a.entry, 'paths': eng.paths, 'completed': eng.completed, 'steps': eng.total_steps, 'queries': eng.queries,
         'solver_s': round(eng.qtime, 3), 'wall_s': round(time.time() - t0, 3), 'parse_s': round(tparse, 3),
         'violations': eng.violations, 'limits': eng.limits[:20], 'n_limits': len(eng.limits),
-        'samples': eng.completed_samples, 'functions': sorted(eng.fn_called),
+        'samples': eng.completed_samples, 'functions': sorted(eng.fn_called), 'concretisations': eng.concretisations,
     }
     js = json.dumps(jsonable(out))
     if a.json:
